@@ -852,6 +852,15 @@ func oracleC20(c e2eCase, run *e2eRun) error {
 	} else if run.ExitCode != 0 || run.ExitSignal != "" {
 		return verifkit.Violf("C20main/exit-status", "SIG%s must stop the server cleanly, exit code %d signal %q\n%s", c.Sig, run.ExitCode, run.ExitSignal, d())
 	}
+	// the signal the server says it received is the one that was sent (what it means - terminate or reload - is
+	// recorded from exactly that)
+	if name := map[string]string{"TERM": "terminated", "INT": "interrupt", "HUP": "hangup"}[c.Sig]; name != "" && run.FailIface == "" {
+		for _, n := range run.Notes {
+			if i := strings.Index(n, "received "); i >= 0 && strings.Contains(n, "shutting down") && !strings.Contains(n[i:], "received "+name+",") {
+				return verifkit.Violf("C20main/wrong-signal-recorded", "SIG%s was sent, the server announced %q\n%s", c.Sig, n, d())
+			}
+		}
+	}
 	missing := map[int]bool{}
 	for _, m := range c.Missing {
 		missing[m] = true
